@@ -1,2 +1,4 @@
+CONSTANTS
+  OpenFx = {}
 INIT Init
 NEXT Next
